@@ -340,7 +340,8 @@ Definition process_transaction (test : bool) (pol : option stage) (evict : list 
 
 (* a block the node connects: coinbase first and only first, txids new to the chain and distinct, nTime above the median
    time past of its parent (ContextualCheckBlockHeader: time-too-old), every input of every transaction unspent in the
-   chain or created earlier in the block and spent once (ConnectBlock: bad-txns-inputs-missingorspent) *)
+   chain or created earlier in the block and spent once (ConnectBlock: bad-txns-inputs-missingorspent).  These are the
+   checks the mempool invariant relies on; whether the node accepted a block is taken from the implementation. *)
 Fixpoint txs_ok (c : chain) (earlier : list tx) (spent : list outpoint) (txs : list tx) : bool :=
   match txs with
   | [] => true
@@ -354,7 +355,18 @@ Definition block_ok (c : chain) (b : block) : bool :=
   | [] => false
   | cb :: rest =>
     is_cb cb && nodupb_z (map t_id (b_txs b)) && negb (intersects (map t_id (b_txs b)) (chain_txids c)) &&
-    (mtp_tip c <? b_time b) && txs_ok c [] [] rest
+    (mtp_tip c <? b_time b) && txs_ok c [] [] rest &&
+    (height c + 1 <? INT32_MAX)                      (* CBlockIndex::nHeight is an int *)
+  end.
+
+(* a chain the node can be on: a genesis block holding only coinbases, every later block connected by block_ok *)
+Fixpoint chain_okb (c : chain) : bool :=
+  match c with
+  | [] => false
+  | b :: rest => match rest with
+                 | [] => forallb is_cb (b_txs b) && nodupb_z (map t_id (b_txs b))
+                 | _ => block_ok rest b && chain_okb rest
+                 end
   end.
 
 (* DisconnectTip x n with one DisconnectedBlockTransactions: AddTransactionsFromBlock appends the block's transactions in
